@@ -1,11 +1,12 @@
 #!/bin/bash
-# tools/runmutant.sh PATCH PROP [PROP...]  : apply to /repo, run quick checks, revert.  Prints exit codes.
+# tools/runmutant.sh PATCH PROP [PROP...]  : apply to /repo, run quick checks, revert.  Evidence files are restored.
 P="$(realpath "$1")"; shift
 cd /verif
 git -C /repo diff --quiet || { echo "repo dirty"; exit 9; }
 git -C /repo apply "$P" || { echo "patch does not apply"; exit 9; }
-trap 'git -C /repo checkout -- .' EXIT
+TMPD=$(mktemp -d /var/tmp/gtmc-ev.XXXX); cp -a evidence/. "$TMPD"/ 2>/dev/null
+trap 'git -C /repo checkout -- .; cp -a "$TMPD"/. /verif/evidence/; rm -rf "$TMPD"' EXIT
 for prop in "$@"; do
-  out=$(./check "$prop" --tier quick 2>&1); rc=$?
+  out=$(./check "$prop" --tier ${TIER:-quick} 2>&1); rc=$?
   echo "== $(basename $P) $prop exit=$rc $(echo "$out" | grep -c '^VIOLATION') violation lines; first: $(echo "$out" | grep -A1 '^VIOLATION' | sed -n 2p | cut -c1-150)"
 done
